@@ -278,7 +278,8 @@ pub fn check_char_classes(ctx: &mut Ctx) {
 
 pub fn c09(ctx: &mut Ctx) {
     check_char_classes(ctx);
-    let (ld, lc) = if ctx.thorough { (8, 7) } else { (6, 5) };
+    // soak shards: short exhaustive part (the main run has the long one), the random parts below carry the weight
+    let (ld, lc) = if ctx.soak { (4, 3) } else if ctx.thorough { (8, 7) } else { (6, 5) };
     // ---------------- De Bruijn
     let alpha_d = vec![Tk::Lam(None), Tk::LP, Tk::RP, Tk::Idx(1), Tk::Idx(2), Tk::Idx(11)];
     let mut seqs = Vec::new();
@@ -363,12 +364,16 @@ pub fn c09(ctx: &mut Ctx) {
     }
     // longer structured random expressions: print a random term in both notations by hand-made renderers
     let n = if ctx.thorough { 20000 } else { 2500 };
-    for _ in 0..n {
+    for k3 in 0..n {
         let b = 3 + ctx.rng.below(25);
         let t = random_term(&mut ctx.rng, b, 0, false, 10);
-        let names = ["a", "b", "x", "y", "foo", "x1", "ƒ", "ℵ", "é2"];
+        // every third term uses identifiers that LOOK special (the word Display prints for UD, constructor names, the
+        // spelled-out glyph) but are ordinary names by the documented lexical rules
+        let plain = ["a", "b", "x", "y", "foo", "x1", "ƒ", "ℵ", "é2"];
+        let wordy = ["undefined", "UD", "lambda", "undefine", "undefined1", "nil", "Var", "x", "y"];
+        let names = if k3 % 3 == 2 { wordy } else { plain };
         let mut ts = Vec::new();
-        term_tokens_named(&t, 0, &mut Vec::new(), &names, &mut ctx.rng, true, &mut ts);
+        term_tokens_named(&t, 0, &mut Vec::new(), &names, &mut ctx.rng, k3 % 3 == 2, &mut ts);
         let expect = ref_parse(&ts);
         let st = ctx.rng.below(6);
         let sx = render(&ts, st, &mut ctx.rng);
@@ -625,10 +630,11 @@ fn term_tokens_named(
     binders: &mut Vec<String>,
     names: &[&str],
     r: &mut Rng,
-    top: bool,
+    wordy: bool,
     out: &mut Vec<Tk>,
 ) {
-    let _ = top;
+    // free names that look special but are ordinary identifiers (binder names always end in a digit: no collision)
+    const WORDS: [&str; 6] = ["undefined", "UD", "lambda", "nil", "undefine", "Var"];
     match t {
         Var(i) => {
             let d = binders.len();
@@ -637,7 +643,12 @@ fn term_tokens_named(
                 // binder shadows it; we guarantee that by construction of binder names below
                 out.push(Tk::Name(binders[d - i].clone()));
             } else {
-                out.push(Tk::Name(format!("free{}", i.saturating_sub(d))));
+                let k = i.saturating_sub(d);
+                if wordy && k >= 1 && k <= WORDS.len() {
+                    out.push(Tk::Name(WORDS[k - 1].to_string()));
+                } else {
+                    out.push(Tk::Name(format!("free{}", k)));
+                }
             }
         }
         Abs(b) => {
@@ -650,7 +661,7 @@ fn term_tokens_named(
             let n = format!("{}{}", base, binders.len());
             out.push(Tk::Lam(Some(n.clone())));
             binders.push(n);
-            term_tokens_named(b, 0, binders, names, r, false, out);
+            term_tokens_named(b, 0, binders, names, r, wordy, out);
             binders.pop();
             if p {
                 out.push(Tk::RP);
@@ -661,8 +672,8 @@ fn term_tokens_named(
             if p {
                 out.push(Tk::LP);
             }
-            term_tokens_named(&q.0, 2, binders, names, r, false, out);
-            term_tokens_named(&q.1, 3, binders, names, r, false, out);
+            term_tokens_named(&q.0, 2, binders, names, r, wordy, out);
+            term_tokens_named(&q.1, 3, binders, names, r, wordy, out);
             if p {
                 out.push(Tk::RP);
             }
@@ -822,7 +833,9 @@ fn cps_to_string(r: &str) -> Option<String> {
 }
 
 fn printer_universe(ctx: &mut Ctx, max_idx_15: bool) -> Vec<Term> {
-    let sz = if ctx.thorough {
+    let sz = if ctx.soak {
+        crate::props::Sizes { enum_size: 3, enum_free: 1, n_random: 30000, rand_size: 70 }
+    } else if ctx.thorough {
         crate::props::Sizes { enum_size: 7, enum_free: 2, n_random: 20000, rand_size: 50 }
     } else {
         crate::props::Sizes { enum_size: 6, enum_free: 2, n_random: 3000, rand_size: 40 }
@@ -845,6 +858,19 @@ fn printer_universe(ctx: &mut Ctx, max_idx_15: bool) -> Vec<Term> {
         for i in [1usize, 26, 27, 702, 703, 18278, 18279] {
             uni.push(Var(i));
             uni.push(abs(app(Var(i + 1), Var(1))));
+        }
+        // free variables whose generated NAME is an English-looking word — in particular the word Display prints for UD
+        // ("undefined" is the name of the free variable with ordinal 4 499 111 678 181): they are ordinary variables
+        for w in ["undefined", "ud", "lambda", "nil", "undefine", "undefinee", "abs", "app"] {
+            let ord = w.bytes().fold(0u128, |a, c| a * 26 + (c - b'a' + 1) as u128) - 1;
+            if ord + 3 >= usize::MAX as u128 {
+                continue;
+            }
+            let o = ord as usize;
+            uni.push(Var(o + 1)); // depth 0, no binders: ordinal = i - 1
+            uni.push(app(abs(Var(1)), Var(o))); // one binder elsewhere: ordinal = 1 + i - 0 - 1
+            uni.push(abs!(2, app!(Var(1), Var(o + 1), Var(2)))); // under two binders: ordinal = 2 + i - 2 - 1
+            uni.push(app!(Var(1), abs(app(Var(o + 1), Var(2))), Var(o))); // twice, among other free variables
         }
         // free indices that do not fit in 32 bits (an index is a usize; the names get up to 14 letters): distinct free
         // variables must keep distinct names, must not collide with binder names, and nothing may overflow
